@@ -258,6 +258,31 @@ theorem PInv.step {E S : Nat} {s : PSys} (h : PInv E S s) (a : PAct) : PInv E S 
           rw [← heq] at this
           simp at this
 
+  | alert =>
+    simp only [PSys.step]
+    split
+    · rename_i hr
+      rcases h1 with ⟨hr', _⟩ | ⟨hr', _⟩ | ⟨hr', _⟩ | ⟨_, hc, he, hs⟩
+      · rw [hr] at hr'; simp [pubOrder] at hr'
+      · rw [hr] at hr'; simp at hr'
+      · rw [hr] at hr'; simp at hr'
+      · refine ⟨Or.inr (Or.inr (Or.inr ⟨hr, hc, he, (by show S ≤ s.sh.wSeq + 1; omega)⟩)),
+          (fun hh => by rw [show ({ s.sh with wSeq := s.sh.wSeq + 1 } : Shared).connected = s.sh.connected from rfl, hc] at hh; cases hh),
+          h3, ?_, ?_⟩
+        · intro p hp
+          simp only [List.mem_cons] at hp
+          rcases hp with rfl | hp
+          · exact ⟨rfl, hs, (by show s.sh.wSeq < s.sh.wSeq + 1; omega)⟩
+          · have := h4 p hp
+            exact ⟨this.1, this.2.1, (by show p.2 < s.sh.wSeq + 1; omega)⟩
+        · simp only [List.pairwise_cons]
+          refine ⟨?_, h5⟩
+          intro p hp heq
+          have := (h4 p hp).2.2
+          rw [← heq] at this
+          simp at this
+    · exact ⟨h1, h2, h3, h4, h5⟩
+
 theorem PInv.run {E S : Nat} {s : PSys} (h : PInv E S s) (acts : List PAct) : PInv E S (s.run E S acts) := by
   induction acts generalizing s with
   | nil => exact h
